@@ -270,8 +270,20 @@ Definition inherent_size (md : mode) (p : pop) : Z :=
   | PLabel _ => 0
   end.
 
+(* registers and typed memory fix the operand size; immediates and untyped memory are only consulted when no
+   operand does (Require66h after the fix in /repo) *)
+Definition fixed_size (p : pop) : Z :=
+  match p with
+  | PReg TR8 _ => 8 | PReg TR16 _ => 16 | PReg TR32 _ => 32 | PReg TCreg _ => 32
+  | PMem DtByte _ => 8 | PMem DtWord _ => 16 | PMem DtDword _ => 32
+  | _ => 0
+  end.
+
+Definition mismatch (md : mode) (sz : Z) : bool := match md with M16 => sz =? 32 | M32 => sz =? 16 end.
+
 Definition require66 (ops : list pop) (md : mode) : bool :=
-  existsb (fun p => match md with M16 => inherent_size md p =? 32 | M32 => inherent_size md p =? 16 end) ops.
+  if existsb (fun p => negb (fixed_size p =? 0)) ops then existsb (fun p => mismatch md (fixed_size p)) ops
+  else existsb (fun p => mismatch md (inherent_size md p)) ops.
 
 Definition require67 (ops : list pop) (md : mode) : bool :=
   existsb (fun p => match p with
